@@ -17,7 +17,7 @@ PROPS = {
         "level_note": "Trusted: Lean kernel; regex and log crates; the hand-written Spec model is validated against the code only on the generated "
                       "cases (bounded, seeded). Quantifier restricted to specs naming each module at most once (as the property states).",
         "correspondence": "Spec model (parse/level_sort/enabled/route/enabledQuery/gate) vs LogSpecification + boxed FlexiLogger from Logger::build()",
-        "rule": "`{_Default}` targets of loggers WITHOUT additional writers (judged on the module path, oracle brace-default-iff-enabled); run-time change to a specification differing only in the text filter, and back (1/3 of the cases); seeded structured specs (builder and parsed strings; names that are prefixes/equal length/level words/non-ASCII) x "
+        "rule": "specifications built through every public construction route (LogSpecBuilder::new / from_module_filters / insert_modules_from, From<LevelFilter>, build* / finalize*); `{_Default}` targets of loggers WITHOUT additional writers (judged on the module path, oracle brace-default-iff-enabled); run-time change to a specification differing only in the text filter, and back (1/3 of the cases); seeded structured specs (builder and parsed strings; names that are prefixes/equal length/level words/non-ASCII) x "
                 "grid of derived targets x 5 levels x messages vs regexes; a case is non-trivial if at least one decision was "
                 "checked against the declarative longest-prefix oracle; distinct = distinct op sequences",
         "trusted": SPEC_TRUST,
@@ -101,7 +101,7 @@ PROPS = {
         "level_note": "A name repeated inside one brace list is delivered once per occurrence (documented reading: the statement quantifies over lists of distinct "
                       "names). One genuine defect repaired (fix 5bf7827: SyslogWriter ignored max_log_level). Custom LogWriters decide themselves what they emit.",
         "correspondence": "Spec.route/emitted/dupDecision vs FlexiLogger::log with additional writers (recording, FileLogWriter, SyslogWriter/UDP) and MultiWriter duplication (child process)",
-        "rule": "48 SYSLOGLINE runs (a real SyslogWriter over UDP loopback: every facility x level x RFC 5424 / RFC 3164, messages containing the header's separators; PRI and message compared with Model/Syslog); seeded brace lists over registered/unknown/_Default/empty names (mostly distinct) x 5 levels x specs x writer kinds and ceilings (also: no additional writer at all) x optional forwarding LogLineFilter; duplication cases: "
+        "rule": "a third of the SYSLOGLINE runs with TWO syslog writers of different header layouts behind one logger and one record addressed to both; duplication tables also under WriteMode::SupportCapture; 48 SYSLOGLINE runs (a real SyslogWriter over UDP loopback: every facility x level x RFC 5424 / RFC 3164, messages containing the header's separators; PRI and message compared with Model/Syslog); seeded brace lists over registered/unknown/_Default/empty names (mostly distinct) x 5 levels x specs x writer kinds and ceilings (also: no additional writer at all) x optional forwarding LogLineFilter; duplication cases: "
                 "all 7 Duplicate values for stderr and stdout with run-time adaptation; non-trivial = a delivery or duplication decision was checked by the oracle",
         "trusted": SPEC_TRUST + ["loopback UDP delivers a datagram before the next recv"],
         "shards": 8,
@@ -171,7 +171,7 @@ PROPS = {
         "level_note": "PARTIAL for timing: the real flusher and writer threads are represented only at the granularity of the protocol steps; the delivery guarantee of "
                       "flush() is claimed for the synchronous modes only (as the property says). Known finding C04-async-clone-drop (not repaired, see known_findings.json).",
         "correspondence": "Flw model vs Logger::build() + LoggerHandle::{flush,shutdown,clone,drop}; child process stdout/stderr vs the lines logged",
-        "rule": "public write modes incl. the defaults, SupportCapture and flushers that really tick; flush alternately via LoggerHandle::flush and Log::flush; the file writer as primary output or (1/4) as an additional writer `{flw}` of a logger without primary output x modes direct/buf/bufflush/async x with/without rotation x record volumes above and below the buffer x clone/drop/flush at seeded positions, ending by shutdown(), by drop of the last handle, or (sync modes, 1/4) by shutdown() + more records + drop of the last handle, "
+        "rule": "a quarter of the histories through log_to_file_and_writer with a second, BUFFERING file writer whose file must be complete after flush()/shutdown() (oracle second-writer-incomplete); public write modes incl. the defaults, SupportCapture and flushers that really tick; flush alternately via LoggerHandle::flush and Log::flush; the file writer as primary output or (1/4) as an additional writer `{flw}` of a logger without primary output x modes direct/buf/bufflush/async x with/without rotation x record volumes above and below the buffer x clone/drop/flush at seeded positions, ending by shutdown(), by drop of the last handle, or (sync modes, 1/4) by shutdown() + more records + drop of the last handle, "
                 "two overlapping shutdown() calls with a slowed writer thread, or drop of the last handle; 40 child-process runs to stdout/stderr; non-trivial = more than one record reached the observation point",
         "trusted": ["std::io::BufWriter", "crossbeam channel FIFO", "process exit does not lose data already handed to write(2)"],
         "shards": 8,
